@@ -12,10 +12,16 @@
         selection): column k of QS belongs to sources[k], column k of QL to the k-th key of
         l_values — every network, every naming, every listing order.  The two former
         counterexample inputs ('A','M','Z'; {'L2','L1'}) are kept as regression examples.
-  Open (stated, not proved): C10_augmented_is_circuit_statement, C10_transfer_statement.
+    C10_augmented_is_circuit   every solution y of (Ã − s·DQ Λ DQᵀ) y = QS u reports a solution of the
+        circuit equations of the phasor network at s (capacitor Y = sC, inductor Z = sL) — via the
+        substituted network + C01_sound + the right-hand-side identity (CC/Proofs/StateRhs.lean);
+    C10_transfer, C10_transfer_unique   hence the model's outputs for x = (s − A)⁻¹ B u ARE the
+        phasor solution (for a well-posed phasor network: the unique one, C01_unique).
+  Nothing of C10 is left open.
 -/
 import CC.Proofs.StateModel
 import CC.Spec.StateSpace
+import CC.Proofs.StatePhasor
 import Mathlib.LinearAlgebra.Matrix.Notation
 import Mathlib.Tactic.NormNum
 import Mathlib.Tactic.FinCases
@@ -242,55 +248,74 @@ theorem netL12_vsIds : netL12.vsIds = ["L1", "L2", "Vq"] := by
 example : ssColsL netL12 [("L2", 1/4), ("L1", 1/8)] = [1, 0] := by
   simp [ssColsL, netL12_csIds, netL12_vsIds, Net.nC, ValDict.keys, idxOf?]
 
-/-! ### open statements -/
+/-! ### the augmented system is the circuit; transfer behaviour -/
 
-section open_statements
-variable {K : Type} [Field K] [DecidableEq K]
+section circuit
+variable {L K : Type} [DecidableEq L] [LabelOrd L] [Field K] [DecidableEq K]
 
-/-- the pencil `Ã − s·DQ Λ DQᵀ` of the model, as a list matrix -/
-def ssPencil (N : Net String K) (cvals lvals : ValDict K) (Delta : List (List K)) (s : K) : List (List K) :=
-  let ny := N.nY
-  let ns := ssNStates N cvals lvals
-  let DQ := ssDQ N cvals lvals Delta
-  let E := Mx.mul ny ns ny DQ (Mx.diagMul ns ny (ssLambda cvals lvals) (Mx.transpose ns ny DQ))
-  Mx.ofFn ny ny fun i j => Mx.get (ssAtilde id N) i j - s * Mx.get E i j
+/-- **The augmented nodal system is the circuit.**  For the `w = 0` network of an RLC + ideal-source
+circuit (`RLC`: distinct ids, no self-loops, capacitors open, inductors shorted, no lossy element):
+every solution `y` of `(Ã − s·DQ Λ DQᵀ) y = QS u` reports a solution of the circuit equations of the
+phasor network at complex frequency `s` driven by `u` (capacitor `Y = s·C`, inductor `Z = s·L`).  The
+report is the accessor report of the substituted network: potentials and voltage-source / inductor
+currents from `y`, capacitor currents `C·s·v_C`, every other current by the branch law. -/
+theorem C10_augmented_is_circuit {N : Net L K} {cvals lvals : ValDict K} {Delta : List (List K)}
+    (h : RLC N cvals lvals) (hD : ssDelta N cvals = .ok Delta) (s : K)
+    (y : Fin N.nY → K) (u : Fin (ssNInputs N lvals) → K)
+    (hsys : (toM N.nY N.nY N.mnaA
+              - s • (toM N.nY (ssNStates N cvals lvals) (ssDQ N cvals lvals Delta)
+                  * (diagonal fun i : Fin (ssNStates N cvals lvals) => (ssLambda cvals lvals).getD i 0)
+                  * (toM N.nY (ssNStates N cvals lvals) (ssDQ N cvals lvals Delta))ᵀ)) *ᵥ y
+            = toM N.nY (ssNInputs N lvals) (ssQS N lvals) *ᵥ u) :
+    let x := (toM N.nY (ssNStates N cvals lvals) (ssDQ N cvals lvals Delta))ᵀ *ᵥ y
+    let P := sampleNet N cvals lvals (ssSources N lvals) (List.ofFn u) (List.ofFn (s • x))
+    CircuitEqs (phasorNet N cvals lvals (ssSources N lvals) (List.ofFn u) s) (P.reportOf (List.ofFn y)) :=
+  augmented_is_circuit h hD s y u hsys
 
-/-- the network is the `w = 0` image of an RLC + ideal-source circuit with the given dictionaries:
-capacitors are open circuits, inductors short circuits, no self-loops, no lossy source -/
-def RLCSetting (N : Net String K) (cvals lvals : ValDict K) : Prop :=
-  N.check = .ok () ∧ (∀ b ∈ N.branches, b.n1 ≠ b.n2)
-  ∧ (∀ id ∈ cvals.keys, ∃ b, N.get? id = some b ∧ b.e = .thevenin 0 0)
-  ∧ (∀ id ∈ lvals.keys, ∃ b, N.get? id = some b ∧ b.e = .norton 0 0)
-  ∧ cvals.keys.Nodup ∧ lvals.keys.Nodup
-  ∧ (∀ b ∈ N.branches, b.e.isLossy = false)
+/-- **Transfer behaviour.**  With `x = (s − A)⁻¹ B u` the outputs `y = C x + D u` of the executable
+model solve the phasor network at `s` with the sources at amplitudes `u` — every potential, every
+element's voltage and current. -/
+theorem C10_transfer {N : Net L K} {cvals lvals : ValDict K} {Ainv S Delta : List (List K)}
+    {m : SSMats K} (h : RLC N cvals lvals) (hD : ssDelta N cvals = .ok Delta)
+    (hm : stateSpaceMatrices N cvals lvals Ainv S = .ok m)
+    (hc : ModelCert id N cvals lvals Ainv S Delta)
+    (s : K) (x : Fin (ssNStates N cvals lvals) → K) (u : Fin (ssNInputs N lvals) → K)
+    (hx : s • x = toM _ _ m.A *ᵥ x + toM _ _ m.B *ᵥ u) :
+    let y := toM N.nY (ssNStates N cvals lvals) m.C *ᵥ x + toM N.nY (ssNInputs N lvals) m.D *ᵥ u
+    let P := sampleNet N cvals lvals (ssSources N lvals) (List.ofFn u) (List.ofFn (s • x))
+    CircuitEqs (phasorNet N cvals lvals (ssSources N lvals) (List.ofFn u) s) (P.reportOf (List.ofFn y)) :=
+  model_transfer h hD hm hc s x u hx
 
-end open_statements
+/-- … and when the phasor network is well-posed they are THE phasor solution: they agree with every
+solution of its circuit equations (in particular with the one the phasor engine reports, C01/C02). -/
+theorem C10_transfer_unique {N : Net L K} {cvals lvals : ValDict K} {Ainv S Delta : List (List K)}
+    {m : SSMats K} (h : RLC N cvals lvals) (hD : ssDelta N cvals = .ok Delta)
+    (hm : stateSpaceMatrices N cvals lvals Ainv S = .ok m)
+    (hc : ModelCert id N cvals lvals Ainv S Delta)
+    (s : K) (x : Fin (ssNStates N cvals lvals) → K) (u : Fin (ssNInputs N lvals) → K)
+    (hx : s • x = toM _ _ m.A *ᵥ x + toM _ _ m.B *ᵥ u)
+    (hw : WellPosed (phasorNet N cvals lvals (ssSources N lvals) (List.ofFn u) s))
+    (R : Report L K) (hR : CircuitEqs (phasorNet N cvals lvals (ssSources N lvals) (List.ofFn u) s) R) :
+    let y := toM N.nY (ssNStates N cvals lvals) m.C *ᵥ x + toM N.nY (ssNInputs N lvals) m.D *ᵥ u
+    let P := sampleNet N cvals lvals (ssSources N lvals) (List.ofFn u) (List.ofFn (s • x))
+    (P.reportOf (List.ofFn y)).AgreeOn (phasorNet N cvals lvals (ssSources N lvals) (List.ofFn u) s) R :=
+  model_transfer_unique h hD hm hc s x u hx hw R hR
 
-/-- OPEN.  The augmented nodal system *is* the circuit: every solution `y` of
-`(Ã − s·DQ Λ DQᵀ) y = QS u` yields potentials, voltages and currents that satisfy the circuit
-equations of the phasor network at complex frequency `s` driven by `u`.  (Branch-by-branch
-argument as for C01, inductors keeping their current unknown.) -/
-def C10_augmented_is_circuit_statement : Prop :=
-  ∀ (K : Type) [Field K] [DecidableEq K] (N : Net String K) (cvals lvals : ValDict K)
-    (Delta : List (List K)) (s : K) (u y : List K),
-    RLCSetting N cvals lvals → ssDelta N cvals = .ok Delta →
-    y.length = N.nY → u.length = ssNInputs N lvals →
-    matVec (ssPencil N cvals lvals Delta s) y = matVec (ssQS N lvals) u →
-    let P := phasorNet N cvals lvals (ssSources N lvals) u s
-    CircuitEqs P (reportOf N P y)
+end circuit
 
-/-- OPEN.  Transfer behaviour: for `x = (s − A)⁻¹ B u` the outputs `C x + D u` of the model are a
-solution of the phasor network at `s` with the sources at amplitudes `u` — hence, for a
-well-posed phasor network, *the* solution (C01_unique), for every output row. -/
-def C10_transfer_statement : Prop :=
-  ∀ (K : Type) [Field K] [DecidableEq K] (N : Net String K) (cvals lvals : ValDict K)
-    (Ainv S Delta : List (List K)) (m : SSMats K) (s : K) (x u : List K),
-    RLCSetting N cvals lvals → ssDelta N cvals = .ok Delta →
-    stateSpaceMatrices N cvals lvals Ainv S = .ok m →
-    ModelCert id N cvals lvals Ainv S Delta →
-    x.length = ssNStates N cvals lvals → u.length = ssNInputs N lvals →
-    x.map (s * ·) = Mx.vecAdd (matVec m.A x) (matVec m.B u) →
-    let P := phasorNet N cvals lvals (ssSources N lvals) u s
-    CircuitEqs P (reportOf N P (Mx.vecAdd (matVec m.C x) (matVec m.D u)))
+/-- non-vacuity of `RLC`: the series circuit `V(1,0) – R=1 (1,2) – C=1 (2,0)` -/
+theorem netRC_rlc : RLC netRC [("C", 1)] [] where
+  wf := { ids_nodup := by simp [Net.ids, netRC]
+          zero_mem := by
+            simp [netRC, Net.nodeLabels, dedupL, sortL, List.mergeSort, LabelOrd.le,
+              List.MergeSort.Internal.splitInTwo]
+          no_self_loop := by intro b hb; simp [netRC] at hb; rcases hb with rfl | rfl | rfl <;> simp }
+  capOpen := by intro b hb hk; simp [netRC] at hb; rcases hb with rfl | rfl | rfl <;> simp [ValDict.keys] at hk ⊢
+  indShort := by intro b _ hk; simp [ValDict.keys] at hk
+  capMem := by simp [ValDict.keys, Net.ids, netRC]
+  indMem := by simp [ValDict.keys]
+  capNodup := by simp [ValDict.keys]
+  indNodup := by simp [ValDict.keys]
+  notLossy := by intro b hb; simp [netRC] at hb; rcases hb with rfl | rfl | rfl <;> simp [Elem.isLossy, Elem.kind]
 
 end CC
